@@ -165,10 +165,55 @@ func negativeRejected(c *an.Ctx, fn *ssa.Function, at ssa.Instruction) bool {
 	return false
 }
 
+// keyExpr: v is the key of listing[idx]: the field load `listing[idx].F`, or a call `key(idx)` of a function value
+// that (in the handler under analysis) is a literal returning `listing[i].F` of its parameter i.
+func keyExpr(v ssa.Value) (idx ssa.Value, field string, listing ssa.Value, ok bool) {
+	if u, isU := v.(*ssa.UnOp); isU && u.Op == token.MUL {
+		if fa, isFA := u.X.(*ssa.FieldAddr); isFA {
+			base := fa.X
+			if l, isLoad := base.(*ssa.UnOp); isLoad && l.Op == token.MUL {
+				base = l.X
+			}
+			if ia, isIA := base.(*ssa.IndexAddr); isIA {
+				return ia.Index, fieldNameOf(fa), ia.X, true
+			}
+		}
+		return nil, "", nil, false
+	}
+	call, isCall := v.(*ssa.Call)
+	if !isCall || call.Call.IsInvoke() || len(call.Call.Args) != 1 {
+		return nil, "", nil, false
+	}
+	for _, s := range an.Sources(call.Call.Value) {
+		k := an.ClosureFn(s)
+		if k == nil || len(k.Params) != 1 {
+			continue
+		}
+		for _, r := range an.Returns(k) {
+			if len(r.Results) != 1 {
+				continue
+			}
+			if i2, f, l2, ok2 := keyExpr(r.Results[0]); ok2 && i2 == ssa.Value(k.Params[0]) {
+				return call.Call.Args[0], f, l2, true
+			}
+		}
+	}
+	return nil, "", nil, false
+}
+
+func eachInstrDeep15(fn *ssa.Function, f func(ssa.Instruction)) {
+	an.Instrs(fn, f)
+	for _, h := range an.TransparentCalleesOf(fn, 2) {
+		an.Instrs(h, f)
+	}
+}
+
 func r15handler(c *an.Ctx, h pagingHandler) {
 	fn := h.fn
 	name := an.FuncName(fn)
 	c.SawFunc(name)
+	// helpers shared with other handlers are read in this handler's context
+	defer an.Focus(fn)()
 	// ---- R15.1
 	c.Check(fromRequestField(h.cap.Call.Args[0], "PageSize"), "R15.1", name+"|page size comes from the request", h.cap.Pos(), "", "capPageSize is not applied to the request's page_size")
 	lo := capLowerBound(c, h.cap.Call.StaticCallee())
@@ -336,7 +381,7 @@ func r15handler(c *an.Ctx, h pagingHandler) {
 					op = map[token.Token]token.Token{token.LSS: token.GTR, token.LEQ: token.GEQ}[op]
 				}
 				if op == token.GTR || op == token.GEQ {
-					if idx, f := indexedField(x); idx == ssa.Value(pred.Params[0]) {
+					if idx, f, _, isKey := keyExpr(x); isKey && idx == ssa.Value(pred.Params[0]) {
 						keyField = f
 						strict = op == token.GTR
 						lastKey = y
@@ -375,7 +420,7 @@ func r15handler(c *an.Ctx, h pagingHandler) {
 		fmt.Sprintf("the search over the listing (len arg ok: %v) must find the first item whose key (field %q) is greater than the token's last key (from the token: %v), strictly or with an equality skip: otherwise the last item of a page is returned again at the start of the next", okN, keyField, okLast))
 	// the token: key of the last element of the page: listing[high-1].key with the same field
 	okTokVal, okClear, okTotal := false, false, false
-	an.Instrs(fn, func(in ssa.Instruction) {
+	eachInstrDeep15(fn, func(in ssa.Instruction) {
 		st, ok := in.(*ssa.Store)
 		if !ok {
 			return
@@ -386,26 +431,12 @@ func r15handler(c *an.Ctx, h pagingHandler) {
 		}
 		switch f {
 		case "LastResourceName":
-			u, isU := st.Val.(*ssa.UnOp)
-			if !isU {
-				return
-			}
-			fa, isFA := u.X.(*ssa.FieldAddr)
-			if !isFA || fieldNameOf(fa) != keyField {
-				return
-			}
-			// fa.X: load of &listing[idx] with idx = sum-1 on the not-at-end edge
-			var ia *ssa.IndexAddr
-			if l, isL := fa.X.(*ssa.UnOp); isL {
-				ia, _ = l.X.(*ssa.IndexAddr)
-			} else {
-				ia, _ = fa.X.(*ssa.IndexAddr)
-			}
-			if ia == nil || !sameListing(ia.X) {
+			idx, kf, lst, isKey := keyExpr(st.Val)
+			if !isKey || kf != keyField || !sameListing(lst) {
 				return
 			}
 			// listing[end-1] with end = next+size, or the page's own upper bound (they coincide when the page is full)
-			if bo, isBO := ia.Index.(*ssa.BinOp); isBO && bo.Op == token.SUB && (bo.X == ssa.Value(sum) || bo.X == page.High) {
+			if bo, isBO := idx.(*ssa.BinOp); isBO && bo.Op == token.SUB && (bo.X == ssa.Value(sum) || bo.X == page.High || (sum != nil && an.SameExpr(bo.X, sum)) || an.SameValues(bo.X, page.High)) {
 				if one, isC := an.ConstInt(bo.Y); isC && one == 1 {
 					okTokVal = true
 				}
@@ -417,7 +448,13 @@ func r15handler(c *an.Ctx, h pagingHandler) {
 		}
 	})
 	// token cleared on the at-end edge: the value passed to encodePageToken is nil there
-	for _, call := range an.CallsIn(fn, func(n string) bool { return strings.HasSuffix(n, ".encodePageToken") }) {
+	var encodes []ssa.CallInstruction
+	eachInstrDeep15(fn, func(in ssa.Instruction) {
+		if cl, ok := in.(*ssa.Call); ok && strings.HasSuffix(an.CalleeName(cl), ".encodePageToken") {
+			encodes = append(encodes, cl)
+		}
+	})
+	for _, call := range encodes {
 		if ph, ok := call.Common().Args[0].(*ssa.Phi); ok {
 			for i, e := range ph.Edges {
 				if an.IsNilConst(e) {
@@ -721,37 +758,55 @@ func r15waste(c *an.Ctx) {
 		if _, _, f, isF := an.FieldOf(st.Addr); !isF || f != "NextPageToken" {
 			return
 		}
-		itoa, ok := st.Val.(*ssa.Call)
-		if !ok || an.CalleeName(itoa) != "strconv.Itoa" {
-			return
-		}
-		sub, ok := stripIntConv(itoa.Call.Args[0]).(*ssa.BinOp)
-		if !ok || sub.Op != token.SUB || stripIntConv(sub.Y) != cnt || !an.SameValue(stripIntConv(sub.X), stripIntConv(call.Call.Args[1])) {
-			return
-		}
-		full, remain := false, false
-		for _, e := range an.GuardingEdges(st) {
-			bo, ok := e.If.Cond.(*ssa.BinOp)
-			if !ok {
+		// every way the field gets a non-empty value: strconv.Itoa(start - count), under the two conditions - whether the
+		// store itself is conditional or an unconditional store of a variable assigned under them
+		all, any := true, false
+		for _, lf := range an.PhiLeaves(st.Val) {
+			if k, isC := lf.Val.(*ssa.Const); isC && k.Value != nil && k.Value.ExactString() == `""` {
 				continue
 			}
-			if bo.Op == token.EQL && e.Branch {
-				for _, pair := range [][2]ssa.Value{{bo.X, bo.Y}, {bo.Y, bo.X}} {
-					if stripIntConv(pair[0]) != cnt {
-						continue
+			itoa, ok := lf.Val.(*ssa.Call)
+			if !ok || an.CalleeName(itoa) != "strconv.Itoa" {
+				all = false
+				continue
+			}
+			sub, ok := stripIntConv(itoa.Call.Args[0]).(*ssa.BinOp)
+			if !ok || sub.Op != token.SUB || !(stripIntConv(sub.Y) == cnt || an.SameExpr(sub.Y, cnt)) || !(an.SameValue(stripIntConv(sub.X), stripIntConv(call.Call.Args[1])) || an.SameExpr(sub.X, call.Call.Args[1])) {
+				all = false
+				continue
+			}
+			full, remain := false, false
+			for _, e := range append(append([]an.CondEdge{}, lf.Conds...), an.GuardingEdges(st)...) {
+				bo, ok := e.If.Cond.(*ssa.BinOp)
+				if !ok {
+					continue
+				}
+				if bo.Op == token.EQL && e.Branch {
+					for _, pair := range [][2]ssa.Value{{bo.X, bo.Y}, {bo.Y, bo.X}} {
+						if !(stripIntConv(pair[0]) == cnt || an.SameExpr(pair[0], cnt)) {
+							continue
+						}
+						if ln, ok := pair[1].(*ssa.Call); ok && an.CalleeName(ln) == "builtin len" {
+							full = true
+						}
 					}
-					if ln, ok := pair[1].(*ssa.Call); ok && an.CalleeName(ln) == "builtin len" {
-						full = true
+				}
+				if k, isC := an.ConstInt(bo.Y); isC && k == 0 && bo.Op == token.GTR && e.Branch {
+					if s2, ok := stripIntConv(bo.X).(*ssa.BinOp); ok && s2.Op == token.SUB && (stripIntConv(s2.Y) == cnt || an.SameExpr(s2.Y, cnt)) {
+						remain = true
 					}
 				}
 			}
-			if k, isC := an.ConstInt(bo.Y); isC && k == 0 && bo.Op == token.GTR && e.Branch {
-				if s2, ok := stripIntConv(bo.X).(*ssa.BinOp); ok && s2.Op == token.SUB && stripIntConv(s2.Y) == cnt {
-					remain = true
-				}
+			if full && remain {
+				any = true
+			} else {
+				all = false
 			}
 		}
-		okTok = full && remain
+		if !(all && any) {
+			return
+		}
+		okTok = true
 	})
 	c.Check(okTok, "R15.4", hn+"|next token is start - count, only when the page is full and records remain", h.Pos(), "", "next_page_token is not strconv.Itoa(start - count) guarded by count == len(page) and start - count > 0, with count the value given to the model")
 	// R15.6 (waste): the model's loop stops at exactly `count` records: the exit compares the number
